@@ -849,13 +849,16 @@ def part_bounds(ctx, bins, models):
 # ==================================================================================================
 # failing inputs of DESIGN.md §8 marked C19 and crashes reported by other checks (C02 pool, C05), reduced
 SEEDS = [
-    ("div-zero", b"int x = 1/0;\n", []),
-    ("mod-zero", b"int x = 5 % 0;\n", []),
-    ("llong-min-div", b"long long y = (-9223372036854775807LL - 1) / -1;\n", []),
-    ("llong-min-mod", b"long long y = (-9223372036854775807LL - 1) % -1;\n", []),
-    ("unevaluated-div", b"int x = 1 || (1 / 0);\n", []),
-    ("nan-to-int", b"int x = (int)(0.0 / 0.0);\n", []),
-    ("anon-member-designator", b"struct A { struct { int q; char r; }; int t; }; struct A o = {.q = 1, 2, 3};\n", []),
+    ("fixed-737afb8-div-zero", b"int x = 1/0;\n", []),
+    ("fixed-737afb8-mod-zero", b"int x = 5 % 0;\n", []),
+    ("fixed-737afb8-llong-min-div", b"long long y = (-9223372036854775807LL - 1) / -1;\n", []),
+    ("fixed-737afb8-llong-min-mod", b"long long y = (-9223372036854775807LL - 1) % -1;\n", []),
+    ("fixed-737afb8-unevaluated-div", b"int x = 1 || (1 / 0);\n", []),
+    ("fixed-10582f3-nan-to-int", b"int x = (int)(0.0 / 0.0);\n", []),
+    ("va-arg-without-type", b"void f(__builtin_va_list ap) { __builtin_va_arg(ap, ); }\n", []),
+    ("va-arg-without-type-value", b"int f(__builtin_va_list ap) { return __builtin_va_arg(ap, ); }\n", []),
+    ("offsetof-without-type", b"int x = __builtin_offsetof(, x);\n", []),
+    ("fixed-4544836-anon-member-designator", b"struct A { struct { int q; char r; }; int t; }; struct A o = {.q = 1, 2, 3};\n", []),
     ("union-reinit", b"union U { int a; struct { short p; char c; int a; } p; }; union U obj = {70000, .p = {1000, 1, .a = 5}};\n", []),
     ("fixed-24ff3f5-keyword-macro-twice", b"#define T int\nT a; T b;\n", []),
     ("undef-during-args", b"#define f(x) x\nf(\n#undef f\n1)\n", ["-E"]),
@@ -954,7 +957,7 @@ def part_volume(ctx, bins):
         by_origin["seed/plain"] += 1
         ctx.count("plain-seed/" + name, nontrivial=True)
         if sig is not None:
-            key = sig + ":seed=" + name if sig.startswith("crash:") else sig
+            key = sig + ":seed=" + name
             sigs[key] += 1
             ctx.violation(key, "abnormal end of the plain build on a known failing input", {"part": "volume", "origin": "seed/plain", "descr": {"seed": name},
                           "target": "x86_64-sysv", "mode": "E" if "-E" in args else "c", "source": src.decode(), "stderr": err[-600:]})
@@ -964,6 +967,8 @@ def part_volume(ctx, bins):
         if obs in (0, 1):
             continue
         key = sig if obs in ("crash", "hang") else "exit:%s" % obs
+        if origin == "seed":
+            key += ":seed=" + d["seed"]
         sigs[key] += 1
         ctx.violation(key, "sanitizer report / abnormal end / timeout on a %s input" % origin,
                       {"part": "volume", "origin": origin, "descr": d, "target": targ, "mode": mode, "source": src.decode("utf-8", "surrogateescape"), "stderr": err[-2500:]})
